@@ -318,13 +318,117 @@ def h_nested_classes(eng):
     eng.prove("nesting.extends_flag_cleared_after_the_clause", z3.BoolVal(L.fields["in_extends_clause"] is False))
 
 
+# ------------------------------------------------------------------------------------------------ sections, equations, statements
+def h_sections_and_equations(eng):
+    """The callbacks that build what a section holds: the section is initial exactly when the INITIAL token is there and takes the
+    equations / statements of its block in source order; if / when equations pair the i-th condition with the i-th block (an else
+    block gets the condition True); for-equations keep indices and body; a connect clause and a simple equation keep left and right."""
+    A, L, P = setup(eng)
+    which = ["equation_section", "algorithm_section", "if_equation", "when_equation", "for_equation", "connect", "simple", "statement"][eng.choice(8)]
+    eng.input("callback", which)
+    if which in ("equation_section", "algorithm_section"):
+        initial = bool(eng.choice(2))
+        n = eng.choice(4)
+        eng.input("initial", initial)
+        eng.input("items", n)
+        items = [A.new("Equation", left=A.ref("e%d" % i), right=A.prim(i)) if which == "equation_section" else A.new("AssignmentStatement") for i in range(n)]
+        item_ctx = [ctx(eng, P, "Equation" if which == "equation_section" else "Statement") for _ in items]
+        for c_, it in zip(item_ctx, items):
+            put_ast(eng, L, c_, it)
+        if which == "equation_section":
+            blk = ctx(eng, P, "Equation_block", equation=VList(item_ctx))
+            sec = ctx(eng, P, "Equation_section", INITIAL=Tok("initial") if initial else None, equation_block=blk)
+            call(eng, L, "enterEquation_section", sec)
+            call(eng, L, "exitEquation_block", blk)
+            call(eng, L, "exitEquation_section", sec)
+            node = get_ast(eng, L, sec)
+            got = node.fields["equations"].items
+        else:
+            blk = ctx(eng, P, "Statement_block", statement=VList(item_ctx))
+            sec = ctx(eng, P, "Algorithm_section", INITIAL=Tok("initial") if initial else None, statement_block=blk)
+            call(eng, L, "enterAlgorithm_section", sec)
+            call(eng, L, "exitStatement_block", blk)
+            call(eng, L, "exitAlgorithm_section", sec)
+            node = get_ast(eng, L, sec)
+            got = node.fields["statements"].items
+        eng.cover("section." + which)
+        flag = node.fields["initial"]
+        eng.prove("section.initial_iff_the_initial_keyword_is_there", z3.BoolVal(flag is initial or flag == initial))
+        eng.prove("section.holds_its_equations_or_statements_in_source_order", z3.BoolVal(len(got) == n and all(a is b for a, b in zip(got, items))))
+        return
+    if which in ("if_equation", "when_equation"):
+        nb = 1 + eng.choice(3)
+        has_else = bool(eng.choice(2)) if which == "if_equation" else False
+        eng.input("conditional_blocks", nb)
+        eng.input("else_block", has_else)
+        conds = [A.ref("c%d" % i) for i in range(nb)]
+        blocks = [VList([A.new("Equation", left=A.ref("b%d" % i), right=A.prim(i))]) for i in range(nb + (1 if has_else else 0))]
+        cctx = [ctx(eng, P, "Expression") for _ in conds]
+        bctx = [ctx(eng, P, "Equation_block") for _ in blocks]
+        for c_, v in list(zip(cctx, conds)) + list(zip(bctx, blocks)):
+            put_ast(eng, L, c_, v)
+        kind = "If_equation" if which == "if_equation" else "When_equation"
+        node_ctx = ctx(eng, P, kind, label_blocks=VList(bctx), label_conditions=VList(cctx))
+        call(eng, L, "exit" + kind, node_ctx)
+        node = get_ast(eng, L, node_ctx)
+        eng.cover("section." + which)
+        gc, gb = node.fields["conditions"].items, node.fields["blocks"].items
+        ok = len(gb) == len(blocks) and all(a is b for a, b in zip(gb, blocks)) and len(gc) == len(gb) and all(a is b for a, b in zip(gc, conds)) and \
+            (not has_else or gc[-1] is True)
+        eng.prove("section.condition_i_guards_block_i_and_else_is_true", z3.BoolVal(bool(ok)))
+        return
+    if which == "for_equation":
+        idx, blk = VList([A.new("ForIndex", name="i")]), VList([A.new("Equation", left=A.ref("x"), right=A.prim(1))])
+        ic, bc = ctx(eng, P, "For_indices"), ctx(eng, P, "Equation_block")
+        put_ast(eng, L, ic, idx)
+        put_ast(eng, L, bc, blk)
+        fc = ctx(eng, P, "For_equation", for_indices=ic, equation_block=bc)
+        call(eng, L, "exitFor_equation", fc)
+        node = get_ast(eng, L, fc)
+        eng.cover("section.for_equation")
+        eng.prove("section.for_equation_keeps_indices_and_body", z3.BoolVal(node.fields["indices"] is idx and node.fields["equations"] is blk))
+        return
+    if which == "connect":
+        l, r = A.ref("a"), A.ref("b")
+        lc, rc = ctx(eng, P, "Component_reference"), ctx(eng, P, "Component_reference")
+        put_ast(eng, L, lc, l)
+        put_ast(eng, L, rc, r)
+        cc = ctx(eng, P, "Connect_clause", component_reference=VList([lc, rc]))
+        call(eng, L, "exitConnect_clause", cc)
+        node = get_ast(eng, L, cc)
+        eng.cover("section.connect")
+        eng.prove("section.connect_clause_keeps_left_and_right", z3.BoolVal(node.fields["left"] is l and node.fields["right"] is r))
+        return
+    if which == "simple":
+        l, r = A.ref("a"), A.prim(2)
+        lc, rc = ctx(eng, P, "Simple_expression"), ctx(eng, P, "Expression")
+        put_ast(eng, L, lc, l)
+        put_ast(eng, L, rc, r)
+        ec = ctx(eng, P, "Equation_simple", simple_expression=lc, expression=rc)
+        call(eng, L, "exitEquation_simple", ec)
+        node = get_ast(eng, L, ec)
+        eng.cover("section.simple")
+        eng.prove("section.simple_equation_keeps_left_and_right", z3.BoolVal(node.cls.name == "Equation" and node.fields["left"] is l and node.fields["right"] is r))
+        return
+    l, r = A.ref("a"), A.prim(2)
+    lc, rc = ctx(eng, P, "Component_reference"), ctx(eng, P, "Expression")
+    put_ast(eng, L, lc, l)
+    put_ast(eng, L, rc, r)
+    sc = ctx(eng, P, "Statement_component_reference", component_reference=lc, expression=rc)
+    call(eng, L, "exitStatement_component_reference", sc)
+    node = get_ast(eng, L, sc)
+    eng.cover("section.statement")
+    eng.prove("section.assignment_statement_keeps_target_and_value", z3.BoolVal(node.cls.name == "AssignmentStatement" and node.fields["left"].items == [l] and node.fields["right"] is r))
+
+
 HARNESSES = [("component clause walk", h_component_clause),
              ("duplicate declaration", h_duplicate_rejected),
              ("declarations inside an extends modification", h_extends_modification_declarations),
              ("composition: visibility and section order", h_composition),
-             ("nested classes and extends", h_nested_classes)]
+             ("nested classes and extends", h_nested_classes),
+             ("sections, equations and statements", h_sections_and_equations)]
 EXPECTED_COVER = {"clause.n1", "clause.n2", "clause.n3", "clause.variant0", "clause.variant1", "duplicate.case0", "duplicate.case1", "extends.redeclaration",
-                  "composition.0_sections", "composition.4_sections", "composition.repeated_visibility_section", "nesting.depth1", "nesting.depth2"}
+                  "composition.0_sections", "composition.4_sections", "composition.repeated_visibility_section", "nesting.depth1", "nesting.depth2"} | {"section." + k for k in ("equation_section", "algorithm_section", "if_equation", "when_equation", "for_equation", "connect", "simple", "statement")}
 BOUNDED = True
 LEVEL = "proof"
 TRUSTED = ["the ANTLR runtime and the generated ModelicaParser/Lexer: which contexts exist for a text, their accessor results and the order in which ParseTreeWalker calls enter*/exit* (emulated by the harness from the grammar's rule structure)",
